@@ -148,8 +148,9 @@ CLAIMS = {
                  "dateRange_end_on_next, duration_text_rejected / duration_special_rejected (negative, NaN, infinite, too large durations are errors), "
                  "client_attribute_name_rejected, sessionData_finish_ok_iff (DATA-ID and exactly one of VALUE/URI), decryptionKey_finish_ok_iff + "
                  "decryptionKey_uri_nonempty + method_values + iv_syntax + versions_capacity, streamData_finish_ok_iff, iframe_needs_uri, yes_no_values, "
-                 "start_needs_time_offset. The two builders that do NOT validate are stated as _partial theorems with counterexample theorems and recorded as "
-                 "known findings K6a/K6b. Tie: exhaustive presence/value subsets of every tag as text, inside the enclosing master playlist and through the "
+                 "start_needs_time_offset, decryptionKey_builder_ok_iff (METHOD and a non-blank URI, since the fix: 704a4ec; the empty URI the builder used to "
+                 "accept was finding K6b). The one builder that does NOT validate (ExtXDateRangeBuilder) is stated as a _partial theorem with a counterexample "
+                 "theorem and recorded as known finding K6a (a repair was withdrawn: the crate's own doc example violates the rule). Tie: exhaustive presence/value subsets of every tag as text, inside the enclosing master playlist and through the "
                  "public builders on library and model (accept/reject must agree) and against the rules written independently in Python."),
         "design_ref": "DESIGN.md §7 C14",
         "note": "The lift from attribute text to accumulator state (the tokenizer + step fold) is exercised by the exhaustive run; the tokenizer inversion lemma attrPairs_render is proved in Proofs/Attr.lean.",
